@@ -448,11 +448,6 @@ mut("c10-static-flip-wrong-n", "C10",
     ("src/static_lut.rs",
      "        self.check_var(ind);\n        flip_inplace(N, self.table.as_mut(), ind);",
      "        self.check_var(ind);\n        flip_inplace(if N >= 9 { N - 1 } else { N }, self.table.as_mut(), ind);"))
-mut("c10-u16-from-lut4-wrong-mask", "C10",
-    "From<Lut4> for u16 masks with the mask of variable 3 (drops the high byte)",
-    ("src/static_lut.rs",
-     "        (lut.table[0] & !VAR_MASK[4]) as u16",
-     "        (lut.table[0] & !VAR_MASK[3] | (lut.table[0] & 0x0100)) as u16"))
 mut("c10-tryfrom-compares-blocks", "C10",
     "TryFrom<Lut> for StaticLut compares the number of blocks instead of the number of variables",
     ("src/static_lut.rs",
